@@ -75,11 +75,11 @@ def correspond(ctx):
     w = engine_driver.EngineWorld(seed=ctx.seed)
     lifecycle_stream.run(ctx, w)
     from vlib import par
-    par.run_parallel(ctx, 'harness.core_stream', 'run_chunk', [{'n_programs': ctx.n(10, 300), 'mode': 'stop'}] * 7
-                     + [{'n_programs': ctx.n(10, 300), 'mode': 'mixed'}] * 7)
+    par.run_parallel(ctx, 'harness.core_stream', 'run_chunk', [{'n_programs': ctx.n(10, 100), 'mode': 'stop'}] * 7
+                     + [{'n_programs': ctx.n(10, 100), 'mode': 'mixed'}] * 7)
     par.run_parallel(ctx, 'harness.engine_stream', 'run_chunk',
-                     [{'n_programs': ctx.n(10, 300), 'props': ['C11'], 'mode': 'stop'}] * 14)
-    par.run_parallel(ctx, 'harness.tree_stream', 'run_chunk', [{'n_cases': ctx.n(8, 120), 'props': ['C11']}] * 14)
+                     [{'n_programs': ctx.n(10, 100), 'props': ['C11'], 'mode': 'stop'}] * 14)
+    par.run_parallel(ctx, 'harness.tree_stream', 'run_chunk', [{'n_cases': ctx.n(8, 50), 'props': ['C11']}] * 14)
     # statement granularity ("late results do not change state or output" below one transaction)
     par.run_parallel(ctx, 'harness.race_driver', 'run_chunk', RACE_CHUNKS)
 
